@@ -93,6 +93,8 @@ def run_check(modname: str, tier: str, seed: int, replay_path: str | None = None
         with open(replay_path) as f:
             doc = json.load(f)
         case = doc['case']
+        ctx['seed'] = doc.get('seed', seed)
+        ctx['tier'] = doc.get('tier', tier)
         _init_worker(modname, ctx)
         r = pm.replay(case, ctx)
         for m in r.mismatches:
